@@ -232,6 +232,48 @@ func (e *vbiEval) encoder() (string, string) {
 		if rs[0].i != int64(len(want)) {
 			return fmt.Sprintf("the dry run of %s gives %d for the value %d; its encoding has %d byte(s)", qname(e.enc), rs[0].i, v, len(want)), ""
 		}
+		// as a property (identifier byte, then the integer): the subscription identifier is written this way
+		if fp := e.p.Method(e.tn, "fillProp"); fp != nil && len(fp.Params) == 4 && v > 0 {
+			c = e.ctx()
+			for k := 0; k < 8; k++ {
+				c.mem[fmt.Sprintf("BUF[%d]", k)] = sv{k: 'i', i: 0x55}
+			}
+			rs, ok = c.evalPure(fp, []sv{{k: 'i', i: v}, {k: 's', i: 8, addr: "BUF"}, {k: 'i', i: 1}, {k: 'i', i: 0x0B}}, nil, 0)
+			if !ok || len(rs) != 1 || rs[0].k != 'i' {
+				return "", fmt.Sprintf("cannot evaluate %s on %d: %s", qname(fp), v, c.why)
+			}
+			wantP := append([]int64{0x0B}, want...)
+			if rs[0].i != int64(len(wantP)) {
+				return fmt.Sprintf("%s reports %d byte(s) for the value %d; identifier and encoding have %d", qname(fp), rs[0].i, v, len(wantP)), ""
+			}
+			var gotP []int64
+			for k := 1; k <= len(wantP); k++ {
+				cell := c.mem[fmt.Sprintf("BUF[%d]", k)]
+				if cell.k != 'i' {
+					return "", fmt.Sprintf("%s on %d: byte %d of the output is not determined", qname(fp), v, k-1)
+				}
+				gotP = append(gotP, cell.i&0xff)
+			}
+			for k := range wantP {
+				if gotP[k] != wantP[k] {
+					return fmt.Sprintf("%s writes %s for the value %d; identifier 0b followed by the encoding MQTT v5.0 §1.5.5 defines is %s", qname(fp), fmtSeq(gotP), v, fmtSeq(wantP)), ""
+				}
+			}
+			for _, k := range []int{0, len(wantP) + 1} {
+				if cell := c.mem[fmt.Sprintf("BUF[%d]", k)]; cell.k != 'i' || cell.i != 0x55 {
+					return fmt.Sprintf("%s on the value %d writes outside its %d byte(s)", qname(fp), v, len(wantP)), ""
+				}
+			}
+			// the dry run agrees
+			c = e.ctx()
+			rs, ok = c.evalPure(fp, []sv{{k: 'i', i: v}, {k: 's', i: 0, b: true}, {k: 'i', i: 0}, {k: 'i', i: 0x0B}}, nil, 0)
+			if !ok || len(rs) != 1 || rs[0].k != 'i' {
+				return "", fmt.Sprintf("cannot evaluate the dry run of %s on %d: %s", qname(fp), v, c.why)
+			}
+			if rs[0].i != int64(len(wantP)) {
+				return fmt.Sprintf("the dry run of %s gives %d for the value %d; identifier and encoding have %d byte(s)", qname(fp), rs[0].i, v, len(wantP)), ""
+			}
+		}
 		if e.width != nil && len(e.width.Params) == 1 {
 			c = e.ctx()
 			rs, ok = c.evalPure(e.width, []sv{{k: 'i', i: v}}, nil, 0)
